@@ -16,7 +16,7 @@ if os.path.exists(p):
 checks, na = [], []
 for i in ids:
     f = os.path.join(frag_dir, f"{i}.json")
-    if os.path.exists(f):
+    if os.path.exists(f) and i not in unclaimed_reasons:
         fr = json.load(open(f))
         chk = dict(
             property_id=i,
